@@ -157,6 +157,8 @@ let body lines =
         | ["sweep"; _; _] -> print_string "thr ok 1\n" | _ -> print_string "badop\n") ops
     (* trivially destructible element with observable copy/move constructors: oracle-only *)
     | "tp" -> List.iter (fun l -> match words l with ["run"; _] -> print_string "tp ok\n" | _ -> print_string "badop\n") ops
+    (* variants mixing trivially destructible and class-type alternatives: oracle-only *)
+    | "mix" -> List.iter (fun l -> match words l with ["run"; _] -> print_string "mix ok\n" | _ -> print_string "badop\n") ops
     | "il" -> List.iter (fun l -> match words l with
         | ["fwd"; _; _] | ["one"; _] -> print_string "il ok\n" | _ -> print_string "badop\n") ops
     | _ -> print_string "badtype\n"
